@@ -2,6 +2,7 @@ import BSModel.Driver.Util
 import BSModel.Model.Entities
 import BSModel.Model.Reader
 import BSModel.Gen.Entities
+import BSModel.Gen.EntitiesFormatters
 namespace BS.Drv.C09
 open BS.Entities BS.Reader BS.Drv
 
@@ -32,6 +33,11 @@ def handle : List String → String
     match findFormatter (regOf reg) (named == "1") (cps name) with
     | none => "no-formatter"
     | some e => showL (formatterSubstitute T X e (if parent == "none" then none else some (cps parent)) (cps s))
+  | ["fmtcfg", lang, fn, cdataArg, parent, s] =>
+    -- a custom Formatter(language, entity_substitution=fn, cdata_containing_tags=cdataArg)
+    let arg : Option (List PStr) := if cdataArg == "none" then none else some ((splitNE ";" cdataArg).map cps)
+    let e := mkFormatter BS.Gen.htmlDefaultCdata (lang == "x") fn.toNat! arg
+    showL (formatterSubstitute T X e (if parent == "none" then none else some (cps parent)) (cps s))
   | ["all", s] =>
     let s := cps s
     let subs := [substXml X s, substHtml T s, substHtml5 T s]
